@@ -6,19 +6,27 @@
 (* flight, send/receive nonces, key fingerprints, delivered payload hash -   *)
 (* must equal the model's state after that action.  Real constants:          *)
 (* LEN = 2, MAC = 16, ROT = 1000.                                            *)
+(*                                                                          *)
+(* Recorded calls and their actions: Write / Flush / Read (whole calls);     *)
+(* WStage + WEnc (WriteMessage stopped where it fetches its pooled buffers,  *)
+(* other calls recorded in between), FlushHdr + FlushBody (Flush stopped     *)
+(* between its two Writes on the wire), RHeader / RBody (ReadHeader and      *)
+(* ReadBody as separate calls, other calls in between); Recheck / Release    *)
+(* (the caller re-hashes / drops the plaintext slices it was handed:         *)
+(* ConformHeld); CWrite / CRead (brontide.Conn.Write / Read: ConformConn,    *)
+(* ConformConnPayload - the bytes Conn.Read handed out for one message,      *)
+(* concatenated, are that message).  Nothing of Conn's internals is          *)
+(* recorded: the model's readBuf (cbuf) is judged through what Read returns, *)
+(* the bytes it takes off the wire and the receive nonces.                   *)
 EXTENDS Transport, Json
-CONSTANT ConnEmptyEOFQuirk   \* TRUE: follow the code where Conn.Read answers a delivered EMPTY message with io.EOF
 VARIABLES l,
-          kmap,    \* learned: abstract key (name, epoch) <-> fingerprint of the real 32-byte key
-          rbuf,    \* machine -> bytes left in its Conn.readBuf, and the hash of the message they belong to
-          clast    \* observation of the last Conn.Read / Conn.Write: [n, err]
+          kmap     \* learned: abstract key (name, epoch) <-> fingerprint of the real 32-byte key
 
 Trace == ndJsonDeserialize("trace.ndjson")
 Last == Trace[l - 1]
-tv == <<vars, l, kmap, rbuf, clast>>
-NoBuf == [left |-> 0, h |-> ""]
+tv == <<vars, l, kmap>>
 
-TInit == Init /\ l = 1 /\ kmap = {} /\ rbuf = [m \in Machines |-> NoBuf] /\ clast = [n |-> 0, err |-> ""]
+TInit == Init /\ l = 1 /\ kmap = {}
 Is(a) == l <= Len(Trace) /\ Trace[l].a = a /\ l' = l + 1
 T == Trace[l]
 
@@ -40,62 +48,13 @@ Reset == /\ Is("Reset")
          /\ rfail' = [d \in Dirs |-> FALSE]
          /\ fl' = [m \in Machines |-> [size |-> 0, got |-> 0]]
          /\ used' = {} /\ hw' = [m \in Machines |-> NoCipher] /\ reuse' = FALSE
+         /\ held' = [d \in Dirs |-> <<>>]
+         /\ wip' = [m \in Machines |-> NoWip] /\ rip' = [m \in Machines |-> NoRip]
+         /\ cbuf' = [m \in Machines |-> NoBuf] /\ cst' = [d \in Dirs |-> NoCst]
          /\ nadv' = 0
          /\ last' = Obs("init", "", "")
-         /\ kmap' = {} /\ rbuf' = [m \in Machines |-> NoBuf] /\ clast' = [n |-> 0, err |-> ""]
+         /\ kmap' = {}
 
------------------------------------------------------------------------------
-(* brontide.Conn on top of the Machine (conn.go): Write = WriteMessage+Flush *)
-(* per chunk of at most MaxSize bytes (here: onto a writer that never times  *)
-(* out), Read = ReadMessage into readBuf when it is empty, then copy out.    *)
-
-\* the chunks of Conn.Write(b), len(b) = size, appended to the stream P, starting in cipher state c with message id
-RECURSIVE Chunks(_, _, _, _, _, _, _)
-Chunks(d, c, P, id, rest, hseq, v) ==
-  LET s  == Min(rest, MaxSize)
-      c2 == Adv(c)
-      P2 == AppendPiece(AppendPiece(P, Piece(Ct(d, c, id, "h", HDR, s, ""), 0, HDR)),
-                        Piece(Ct(d, c2, id, "b", s + MAC, IF s = LEN THEN v ELSE -1, Head(hseq)), 0, s + MAC))
-  IN IF rest - s = 0 THEN [c |-> Adv(c2), lastc |-> c2, pipe |-> P2, id |-> id, lasts |-> s]
-     ELSE Chunks(d, Adv(c2), P2, id + 1, rest - s, Tail(hseq), v)
-
-CWrite(m, size, hseq, v) ==
-  LET d == DirOf(m) IN
-  /\ hs[m] = "done"
-  /\ IF pend[m] # NoPend THEN
-        /\ clast' = [n |-> 0, err |-> "notflushed"]
-        /\ last' = Obs("CWrite", m, "notflushed")
-        /\ UNCHANGED tvars
-     ELSE
-        LET r == Chunks(d, snd[m], pipe[d], nsent[d] + 1, size, hseq, v) IN
-        /\ snd' = [snd EXCEPT ![m] = r.c]
-        /\ pipe' = IF closed[d] THEN pipe ELSE [pipe EXCEPT ![d] = r.pipe]
-        /\ nsent' = [nsent EXCEPT ![d] = r.id]
-        /\ fl' = [fl EXCEPT ![m] = [size |-> r.lasts, got |-> r.lasts]]
-        /\ reuse' = (reuse \/ (hw[m] # NoCipher /\ ~Less(hw[m], snd[m])))
-        /\ hw' = [hw EXCEPT ![m] = r.lastc]
-        /\ clast' = [n |-> size, err |-> ""]
-        /\ last' = Obs("CWrite", m, "")
-        /\ UNCHANGED <<rcv, pend, closed, lastmsg, dl, rfail, used>>
-  /\ UNCHANGED <<hvars, nadv, rbuf>>
-
-CRead(d, want) ==
-  LET r == Reader(d) IN
-  IF rbuf[r].left > 0 THEN
-     /\ hs[r] = "done"
-     /\ clast' = [n |-> Min(want, rbuf[r].left), err |-> ""]
-     /\ rbuf' = [rbuf EXCEPT ![r].left = @ - Min(want, @)]
-     /\ UNCHANGED vars
-  ELSE
-     LET res == ReadRes(pipe[d], rcv[r]) IN
-     /\ (Read(d) \/ ReadAfterFailure(d))
-     /\ IF res.err # "" THEN clast' = [n |-> 0, err |-> res.err] /\ rbuf' = rbuf
-        ELSE IF res.dsz = 0 /\ want > 0 THEN
-           \* bytes.Buffer.Read on an empty buffer: (0, io.EOF) - the delivered empty message looks like the end of the stream
-           /\ ConnEmptyEOFQuirk /\ PrintT(<<"QUIRK", "conn-read-empty-message-eof", l>>)
-           /\ clast' = [n |-> 0, err |-> "short"] /\ rbuf' = rbuf
-        ELSE /\ clast' = [n |-> Min(want, res.dsz), err |-> ""]
-             /\ rbuf' = [rbuf EXCEPT ![r] = [left |-> res.dsz - Min(want, res.dsz), h |-> res.dh]]
 AdvNames == {"Corrupt", "Truncate", "Drop", "Swap", "Replay", "ReplayOld", "Reflect"}
 
 TNext ==
@@ -112,11 +71,20 @@ TNext ==
         \/ Is("Write") /\ Write(T.m, T.size, T.v, T.h)
         \/ Is("Flush") /\ Flush(T.m, T.k)
         \/ Is("Read") /\ (Read(T.d) \/ ReadAfterFailure(T.d))
+        \/ Is("WStage") /\ WStage(T.m, T.size, T.v, T.h)
+        \/ Is("WEnc") /\ WEnc(T.m)
+        \/ Is("FlushHdr") /\ FlushHdr(T.m, T.k)
+        \/ Is("FlushBody") /\ FlushBody(T.m)
+        \/ Is("RHeader") /\ RHeader(T.d)
+        \/ Is("RBody") /\ RBody(T.d)
+        \/ Is("Release") /\ Release(T.d)
+        \/ Is("Recheck") /\ Recheck(T.d)
+        \/ Is("CWrite") /\ CWrite(T.m, T.size, T.hs, T.v)
+        \/ Is("CRead") /\ CRead(T.d, T.k)
+              /\ (CReadEmptyEOF(T.d, T.k) => PrintT(<<"QUIRK", "conn-read-empty-message-eof", l>>))
         \/ l <= Len(Trace) /\ T.a \in AdvNames /\ l' = l + 1
              /\ DoAdv(T.d, [a |-> T.a, o1 |-> T.o1, o2 |-> T.o2, o3 |-> T.o3])
-     /\ Learn /\ UNCHANGED <<rbuf, clast>>
-  \/ Is("CWrite") /\ CWrite(T.m, T.size, T.hs, T.v) /\ Learn
-  \/ Is("CRead") /\ CRead(T.d, T.k) /\ Learn
+     /\ Learn
   \/ (l = Len(Trace) + 1 /\ UNCHANGED tv)
 TSpec == TInit /\ [][TNext]_tv
 
@@ -124,18 +92,22 @@ Live == l > 1 /\ Last.a # "Reset"
 Done(m) == hs[m] = "done"
 
 \* the error class of the call
+ConformErr == Live => Last.err = last.err
+\* Conn.Read / Conn.Write: the number of bytes the call reports
 IsConn == Last.a \in {"CRead", "CWrite"}
-ConformErr == Live => Last.err = IF IsConn THEN clast.err ELSE last.err
-\* Conn.Read / Conn.Write: bytes returned, bytes left in readBuf, and the drained message is the delivered one
-ConformConn == (Live /\ IsConn) => /\ Last.nn = clast.n
-                                   /\ Last.Arb = rbuf["A"].left /\ Last.Brb = rbuf["B"].left
-                                   /\ (Last.a = "CRead" /\ Last.h # "" => Last.h = rbuf[Last.m].h)
-\* ReadMessage returned a payload of the length the model says
-ConformSize == (Live /\ Last.a = "Read" /\ last.err = "") => Last.size = last.dsz
+ConformConn == (Live /\ IsConn) => Last.nn = last.nn
+\* Conn.Read: when the last byte of a message has been handed out, the bytes handed out since Conn last took
+\* bytes off the wire (concatenated by the harness, whatever the sizes of the caller's buffers) are that message
+ConformConnPayload == (Live /\ Last.a = "CRead" /\ last.err = "") =>
+                         LET b == cbuf[Last.m] IN
+                         (b.left = 0 /\ b.sz > 0 /\ b.h # "") => Last.h = b.h
+\* ReadMessage / ReadBody returned a payload of the length the model says; ReadHeader the length it says
+ConformSize == (Live /\ Last.a \in {"Read", "RBody"} /\ last.err = "") => Last.size = last.dsz
+ConformHdrLen == (Live /\ Last.a = "RHeader" /\ last.err = "") => Last.nn = last.nn
 \* the responder learned the initiator's static key (Conn.RemotePub of the accepted connection)
 ConformRemoteKey == (Live /\ Last.a = "RecvActThree" /\ last.err = "") => Last.rpk = 1
 \* Flush's return value: plaintext bytes written by this call
-ConformFlush == (Live /\ Last.a = "Flush") => Last.nn = last.nn
+ConformFlush == (Live /\ Last.a \in {"Flush", "FlushBody"}) => Last.nn = last.nn
 \* len(nextHeaderSend), len(nextBodySend) of both machines
 ConformPend == Live => /\ (Done("A") => Last.Ahl = pend["A"].hl /\ Last.Abl = pend["A"].bl)
                        /\ (Done("B") => Last.Bhl = pend["B"].hl /\ Last.Bbl = pend["B"].bl)
@@ -145,7 +117,13 @@ ConformPipe == Live => Last.Lab = Total(pipe["ab"]) /\ Last.Lba = Total(pipe["ba
 ConformNonce == Live => /\ (Done("A") => Last.Asn = snd["A"].n /\ Last.Arn = rcv["A"].n)
                         /\ (Done("B") => Last.Bsn = snd["B"].n /\ Last.Brn = rcv["B"].n)
 \* the delivered bytes are the bytes of the message the model says was delivered
-ConformPayload == (Live /\ Last.a = "Read" /\ last.err = "" /\ last.did > 0) => Last.h = last.dh
+ConformPayload == (Live /\ Last.a \in {"Read", "RBody"} /\ last.err = "" /\ last.did > 0) => Last.h = last.dh
+\* (a) what the caller was handed is a value: the slices it still holds, hashed again NOW, are the messages as
+\* they were sent - whatever the Machine has read, written or flushed since it handed them out
+ConformHeld == (Live /\ Last.a = "Recheck") =>
+                  LET H == held[Last.d] IN
+                  /\ Len(Last.hh) = Len(H)
+                  /\ \A i \in 1..Len(H) : (H[i].id > 0 /\ H[i].h # "") => Last.hh[i] = H[i].h
 \* one real key per abstract (key, epoch) and one abstract (key, epoch) per real key:
 \* send(p) = recv(q), the four directions' keys differ, rotation exactly every ROT uses,
 \* and - with ConformNonce and NoNonceReuse - no (real key, nonce) pair encrypts twice
